@@ -287,6 +287,9 @@ func (n *Net) roundTrip(req *http.Request) (*http.Response, error) {
 		return nil, fmt.Errorf("dial tcp %s: connect: connection refused", dest)
 	}
 	method := "HTTP " + req.Method + " " + req.URL.Path
+	if req.URL.Query().Get("type") == "replicate" {
+		method += "#replicate"
+	}
 	gated := n.isGated(method)
 	var hash uint64
 	if gated {
